@@ -28,6 +28,17 @@
 (*                                  the readiness HOLD while a released    *)
 (*                                  call runs (ntex-util buffer.rs:        *)
 (*                                  `next_call` guard)                     *)
+(*   streamed payloads              a PUBLISH whose payload is not complete *)
+(*                                  when its header is decoded starts its   *)
+(*                                  handler at once; the rest arrives as    *)
+(*                                  PayloadChunk requests, which bypass the *)
+(*                                  limiter, are fed to the payload slot    *)
+(*                                  (sink.payload) and yield no response;   *)
+(*                                  a handler may read the payload to its   *)
+(*                                  end (it then completes when the last    *)
+(*                                  chunk has been fed, after the           *)
+(*                                  dispatcher's pass) or abandon it (the   *)
+(*                                  slot stays until the last chunk)        *)
 (*   application handlers           gated (complete on command) or armed   *)
 (*                                  (complete inside the call); the armed  *)
 (*                                  outcomes are a FIFO consumed by        *)
@@ -52,7 +63,9 @@ CONSTANTS
   RecvMax,      \* MQTT 5 Receive Maximum announced by this endpoint (0 = none)
   MaxQos,       \* maximum QoS accepted (servers)
   AliasMax,     \* MQTT 5 Topic Alias Maximum announced by this endpoint
-  GateStop      \* BOOLEAN: the connection-control service answers Control::Stop only on command
+  GateStop,     \* BOOLEAN: the connection-control service answers Control::Stop only on command
+  MinChunk      \* min_chunk_size of the codec: after the header, a piece of a streamed payload is handed on when at least
+                \* that many bytes are buffered (0: never) or the payload is complete
 
 E(e, k, s, id, q, r, n, x) == [e |-> e, k |-> k, s |-> s, id |-> id, q |-> q, r |-> r, n |-> n, x |-> x]
 Quiet == E("quiet", "alive", 0, 0, 0, 0, 0, "")
@@ -92,6 +105,10 @@ Init0 == [ alive   |-> TRUE,      \* the io dispatcher is in its Processing stat
            closed  |-> FALSE,     \* the io was closed by the endpoint itself (sink.close()): later writes are dropped
            peerGone |-> FALSE,    \* the peer closed its end: noticed only where the dispatcher reads (a paused read does
                                   \* not see the end of the stream); what is written from now on is not observed
+           owe     |-> 0,         \* PEER side: payload bytes it still has to write for its last (streamed) PUBLISH
+           part    |-> 0,         \* payload bytes held by the codec (pieces below min_chunk_size wait for the last one)
+           slot    |-> 0,         \* sink.payload: h of the handler whose payload the next chunks are fed to (0 = empty)
+           strm    |-> FALSE,     \* limiter flag `publish`: a streamed PUBLISH was dispatched and its last chunk was not
            rdy     |-> FALSE,     \* the pending readiness future has already obtained the readiness of the inner
                                   \* service (join in InFlightServiceImpl::ready) and only waits for the limiter
            ch      |-> 0,         \* scheduling choice of the current command (see Quiesce)
@@ -99,6 +116,9 @@ Init0 == [ alive   |-> TRUE,      \* the io dispatcher is in its Processing stat
            ev      |-> << >> ]    \* events of the current command
 
 Emit(st, evs) == [st EXCEPT !.ev = @ \o evs]
+\* a handler waiting for the application.  sz > 0: its payload is streamed (sz declared bytes, got of them fed so
+\* far); wait: the application has let it go on with this outcome and it reads the payload to its end first
+G(h, n, kind, id, q) == [h |-> h, n |-> n, kind |-> kind, id |-> id, q |-> q, sz |-> 0, got |-> 0, wait |-> ""]
 OutEv(r) == E("out", r.k, 0, r.id, 0, r.rc, 0, "")
 Write(st, r) == IF r.k = "NONE" \/ st.closed \/ st.peerGone THEN st ELSE Emit(st, << OutEv(r) >>)
 
@@ -118,7 +138,7 @@ Stop(st, kind, rc) ==
   LET h == st.nextH
       s1 == [Emit(st, << E("ctl", kind, h, 0, 0, 0, 0, "") >>)
                EXCEPT !.alive = FALSE, !.nextH = h + 1, !.phase = "stop", !.stopG = GateStop, !.stopH = h, !.stopRc = rc]
-  IN IF GateStop THEN [s1 EXCEPT !.gates = Append(@, [h |-> h, n |-> 0, kind |-> "stop", id |-> rc, q |-> 0])] ELSE s1
+  IN IF GateStop THEN [s1 EXCEPT !.gates = Append(@, G(h, 0, "stop", rc, 0))] ELSE s1
 
 \* the dispatcher notices state.error at its next poll
 \* (only in its Processing state: errors raised after Stop are dropped silently)
@@ -194,7 +214,7 @@ CtlDone(st0, kind, id, outcome) ==
 HStartId(kind, id) == IF Ver = 5 /\ kind \notin {"ping", "disc", "auth"} THEN id ELSE 0
 
 \* a publish handler starts for request n (the in-flight id was recorded by the caller)
-StartPub(st, n, q, id, topic, plen) ==
+StartPubS(st, n, q, id, topic, plen, sent) ==
   LET h == st.nextH
       s1 == [Emit(st, << E("h_start", "pub", h, id, q, 0, plen, TopicName(topic)) >>) EXCEPT !.nextH = h + 1]
   IN IF s1.armed # << >>
@@ -202,7 +222,11 @@ StartPub(st, n, q, id, topic, plen) ==
                 s2 == PubDone([Emit(s1, << E("h_end", o, h, 0, 0, 135, 0, "") >>) EXCEPT !.armed = Tail(@)], q, id, o)
                 s3 == IF PubFails(q, o) THEN FailClose(s2, FALSE) ELSE s2
             IN InCall(s3, n, PubResult(q, id, o))
-       ELSE Pending([s1 EXCEPT !.gates = Append(@, [h |-> h, n |-> n, kind |-> "pub", id |-> id, q |-> q])], n)
+       ELSE IF sent < plen
+         THEN \* streamed: the payload slot is taken, the handler holds the receiving end
+              Pending([s1 EXCEPT !.gates = Append(@, [G(h, n, "pub", id, q) EXCEPT !.sz = plen, !.got = sent]), !.slot = h], n)
+       ELSE Pending([s1 EXCEPT !.gates = Append(@, G(h, n, "pub", id, q))], n)
+StartPub(st, n, q, id, topic, plen) == StartPubS(st, n, q, id, topic, plen, plen)
 
 \* a protocol-control handler starts for request n (direct call or released from the buffer);
 \* returns <<state, result or Pend>>
@@ -216,7 +240,7 @@ StartCtl(st, n, kind, id, released) ==
                                  EXCEPT !.armed = IF @ # << >> THEN Tail(@) ELSE @], kind, id, o)
                 s3 == IF CtlFails(o) THEN FailClose(s2, TRUE) ELSE s2
             IN << s3, CtlResult(kind, id, o) >>
-       ELSE << [s1 EXCEPT !.gates = Append(@, [h |-> h, n |-> n, kind |-> kind, id |-> id, q |-> 0])], Pend >>
+       ELSE << [s1 EXCEPT !.gates = Append(@, G(h, n, kind, id, 0))], Pend >>
 
 \* a control request reaches the pipeline from call_service
 CtlArrive(st, n, kind, id) ==
@@ -252,7 +276,7 @@ Dispatch(st0, p) ==
              id == IF q = 0 THEN 0 ELSE p.id IN
          IF q = 0
            THEN LET r == Resolve(st, p) IN
-                IF r[1] THEN StartPub(r[2], n, 0, 0, r[3], p.plen) ELSE Viol(st, r[4])
+                IF r[1] THEN StartPubS(r[2], n, 0, 0, r[3], p.plen, p.sent) ELSE Viol(st, r[4])
          ELSE IF Ver = 5 /\ RecvMax # 0 /\ Cardinality(st.pubIds) >= RecvMax THEN Viol(st, 147)
          ELSE IF Ver = 5 /\ Role = "server" /\ q > MaxQos THEN Viol(st, 155)
          ELSE LET r == Resolve(st, p) IN
@@ -265,7 +289,14 @@ Dispatch(st0, p) ==
                      ELSE InCall(Write(r[2], Resp("PUBACK", id, 145)), n, None)
               ELSE LET s1 == [r[2] EXCEPT !.ids = @ \cup {id}, !.pubIds = @ \cup {id}] IN
                    IF Ver = 3 /\ Role = "server" /\ q > MaxQos THEN Viol(s1, 130)
-                   ELSE StartPub(s1, n, q, id, r[3], p.plen)
+                   ELSE StartPubS(s1, n, q, id, r[3], p.plen, p.sent)
+    \* a further piece of a streamed payload: fed to the slot (a receiver that is gone swallows it), no response;
+    \* the last piece empties the slot.  Without a slot: DecodeError::UnexpectedPayload
+    [] p.kind = "chunk" ->
+         IF st.slot = 0 THEN Viol(st, 131)      \* (a decode error: MQTT 5 DISCONNECT 0x83)
+         ELSE LET s1 == [st EXCEPT !.gates = [i \in 1..Len(@) |-> IF @[i].h = st.slot THEN [@[i] EXCEPT !.got = @ + p.plen] ELSE @[i]],
+                                   !.slot = IF p.fin THEN 0 ELSE @]
+              IN InCall(s1, n, None)
     [] p.kind = "pubrel" ->
          \* (the clients accept PUBREL for any identifier that is in flight, not only for an acknowledged QoS 2 publish)
          IF p.id \in st.q2rec \/ (Role = "client" /\ p.id \in st.ids) THEN CtlArrive(st, n, "pubrel", p.id)
@@ -297,15 +328,19 @@ Dispatch(st0, p) ==
 
 \* poll_recv_decode: undecodable bytes end the connection with a protocol error (only when the dispatcher
 \* reads, i.e. when the service is ready), a packet is dispatched
-Read(st, p) == IF p.kind = "raw" THEN Stop(st, "stop_proto", 131) ELSE Dispatch(st, p)
+Read(st, p) ==
+  IF p.kind = "raw" THEN Stop(st, "stop_proto", 131)
+  ELSE Dispatch([st EXCEPT !.strm = IF p.kind = "chunk" THEN (IF p.fin THEN FALSE ELSE @)
+                                    ELSE p.kind = "pub" /\ p.sent < p.plen], p)
 
 \* the in-flight limiter admits another request: requests are charged from dispatch until their result exists
 RECURSIVE SumSz(_)
 SumSz(q) == IF q = << >> THEN 0 ELSE (IF Head(q).r = Pend THEN Head(q).sz ELSE 0) + SumSz(Tail(q))
 NPend(q) == Len(SelectSeq(q, LAMBDA e : e.r = Pend))
 LimReady(st) ==
-  /\ (Ver = 3 /\ MaxRecv > 0) => NPend(st.ioq) < MaxRecv
-  /\ (Role = "server" /\ MaxRecvSize > 0) => SumSz(st.ioq) <= MaxRecvSize
+  \/ (Role = "server" /\ st.strm)       \* payload chunks of a streamed publish must not be blocked by the limits
+  \/ /\ (Ver = 3 /\ MaxRecv > 0) => NPend(st.ioq) < MaxRecv
+     /\ (Role = "server" /\ MaxRecvSize > 0) => SumSz(st.ioq) <= MaxRecvSize
 
 \* One evaluation of the readiness of the control pipeline (BufferService::ready) by the dispatcher:
 \*   - a stored `next_call` guard is taken and awaited (nothing else happens until the released call ends);
@@ -373,6 +408,16 @@ ShutStep(st) ==
 \* poll_ready for response results"), then the Stop call; when the control service has answered, MQTT 5 writes the
 \* DISCONNECT it returned, the sink is closed and shutdown begins (a readiness future that was pending on a guard
 \* is dropped with the pipeline state: nobody waits for that call any more)
+\* a handler whose streamed payload is complete and who only waited for it finishes although the dispatcher has
+\* stopped (its task is still alive until shutdown drops it); what it answers is not written any more
+RdIdx(st) == IF \E i \in 1..Len(st.gates) : st.gates[i].wait # "" /\ st.gates[i].got >= st.gates[i].sz
+               THEN CHOOSE i \in 1..Len(st.gates) : st.gates[i].wait # "" /\ st.gates[i].got >= st.gates[i].sz ELSE 0
+FinishQuiet(st) ==
+  LET gi == RdIdx(st) IN
+  IF gi = 0 THEN st
+  ELSE LET g == st.gates[gi] IN
+       [Emit(st, << E("h_read", "all", g.h, 0, 0, 0, g.sz, ""), E("h_end", g.wait, g.h, 0, 0, 135, 0, "") >>)
+          EXCEPT !.gates = SubSeq(@, 1, gi - 1) \o SubSeq(@, gi + 1, Len(@))]
 StopArm(st) ==
   IF st.stopG
     THEN IF st.rdy THEN st ELSE ReadyEff(st)
@@ -381,12 +426,26 @@ StopArm(st) ==
          LET s2 == Emit(st, << E("ctl_done", "ok", st.stopH, 0, 0, 0, 0, "") >>)
              s3 == CloseSink(IF Ver = 5 /\ s2.stopRc >= 0 THEN Write(s2, Resp("DISCONNECT", 0, s2.stopRc)) ELSE s2)
              s4 == IF s3.rdy THEN s3 ELSE ReadyEff(s3)
-         IN ShutStep([s4 EXCEPT !.phase = "shut", !.nc = IF @ = 2 THEN 0 ELSE @])
+         IN ShutStep(FinishQuiet([s4 EXCEPT !.phase = "shut", !.nc = IF @ = 2 THEN 0 ELSE @]))
 
 \* run the connection's tasks to quiescence in whatever phase it is
+\* a handler that reads its streamed payload to the end has got the last byte: it finishes (its task runs after the
+\* dispatcher's pass over what was readable)
+ReaderIdx(st) == IF \E i \in 1..Len(st.gates) : st.gates[i].wait # "" /\ st.gates[i].got >= st.gates[i].sz
+                   THEN CHOOSE i \in 1..Len(st.gates) : st.gates[i].wait # "" /\ st.gates[i].got >= st.gates[i].sz ELSE 0
+FinishPub(st, gi, outcome, rd) ==
+  LET g == st.gates[gi]
+      rest == SubSeq(st.gates, 1, gi - 1) \o SubSeq(st.gates, gi + 1, Len(st.gates))
+      s1 == [Emit(st, (IF rd THEN << E("h_read", "all", g.h, 0, 0, 0, g.sz, "") >> ELSE << >>)
+                      \o << E("h_end", outcome, g.h, 0, 0, 135, 0, "") >>) EXCEPT !.gates = rest]
+      s2 == IF PubFails(g.q, outcome) THEN FailClose(s1, FALSE) ELSE s1
+  IN HandleRes(PubDone(s2, g.q, g.id, outcome), g.n, PubResult(g.q, g.id, outcome))
 RECURSIVE Settle(_)
 Settle(st) ==
-  CASE st.phase = "run" -> LET s == Quiesce(st) IN IF s.phase = "run" THEN s ELSE Settle(s)
+  CASE st.phase = "run" -> LET s == Quiesce(st) IN
+                           IF s.phase # "run" THEN Settle(s)
+                           ELSE IF ReaderIdx(s) > 0 THEN Settle(FinishPub(s, ReaderIdx(s), s.gates[ReaderIdx(s)].wait, TRUE))
+                           ELSE s
     [] st.phase = "stop" -> StopArm(st)
     [] st.phase = "shut" -> ShutStep(st)
     [] OTHER -> st
@@ -412,7 +471,8 @@ InName(kind) == CASE kind = "pub" -> "PUBLISH" [] kind = "pubrel" -> "PUBREL"
                   [] kind = "suback" -> "SUBACK" [] kind = "unsuback" -> "UNSUBACK" [] kind = "auth" -> "AUTH"
                   [] OTHER -> "DISCONNECT"
 InEvs(p) ==
-  IF p.kind = "pub"
+  IF p.kind = "chunk" THEN << E("in_chunk", "", 0, 0, 0, 0, p.plen, "") >>
+  ELSE IF p.kind = "pub"
     THEN << E("in", "PUBLISH", p.alias, IF p.q = 0 THEN 0 ELSE p.id, p.q, 0, p.plen, TopicStr(p.topic)),
             E("in_props", "", RL(p), 97, 0, 0, 0, "|||") >>
     \* (DISCONNECT: n = Session Expiry Interval carried by the packet, -1 = none; CONNECT: x = its Session Expiry)
@@ -425,22 +485,31 @@ Arrive(st, pk) ==
   IF pk = << >> THEN st
   ELSE LET p == Head(pk)
            n == st.narr + 1
-       IN Arrive([Emit(st, InEvs(p)) EXCEPT !.narr = n,
+       IN IF p.kind = "chunk" /\ ~p.fin /\ (MinChunk = 0 \/ st.part + p.plen < MinChunk)
+            THEN \* a piece that is not the last one and leaves less than min_chunk_size bytes buffered stays in the
+                 \* codec until more of the payload has arrived: nothing is dispatched for it
+                 Arrive([Emit(st, InEvs(p)) EXCEPT !.owe = @ - p.plen, !.part = @ + p.plen], Tail(pk))
+          ELSE
+          Arrive([Emit(st, InEvs(p)) EXCEPT !.narr = n, !.part = IF p.kind = "chunk" THEN 0 ELSE @,
+                    !.owe = IF p.kind = "chunk" THEN @ - p.plen ELSE IF p.kind = "pub" THEN p.plen - p.sent ELSE @,
                     !.rbuf = Append(@, [n |-> n, kind |-> p.kind, id |-> p.id, q |-> p.q, topic |-> p.topic,
-                                        alias |-> p.alias, plen |-> p.plen, sz |-> RL(p)])], Tail(pk))
+                                        alias |-> p.alias, plen |-> IF p.kind = "chunk" THEN st.part + p.plen ELSE p.plen,
+                                        sent |-> p.sent, fin |-> p.fin, sz |-> RL(p)])], Tail(pk))
 DoIn(st, pk, arm, ch) == Settle(Arrive([st EXCEPT !.armed = @ \o arm, !.ch = ch], pk))
 
 \* command: the application's handler h finishes with the given outcome
-DoComplete(st, gi, outcome, ch) ==
+\* rd: the handler first reads its (streamed) payload to the end
+DoComplete(st, gi, outcome, ch, rd) ==
   LET g == st.gates[gi]
       rest == SubSeq(st.gates, 1, gi - 1) \o SubSeq(st.gates, gi + 1, Len(st.gates))
   IN IF g.kind = "stop"
        THEN Settle([st EXCEPT !.gates = rest, !.stopG = FALSE])
        ELSE
   LET s1 == [Emit(st, << E("h_end", outcome, g.h, 0, 0, 135, 0, "") >>) EXCEPT !.gates = rest, !.ch = ch]
-  IN IF g.kind = "pub"
-       THEN LET s2 == IF PubFails(g.q, outcome) THEN FailClose(s1, FALSE) ELSE s1 IN
-            Settle(HandleRes(PubDone(s2, g.q, g.id, outcome), g.n, PubResult(g.q, g.id, outcome)))
+  IN IF g.kind = "pub" /\ rd /\ g.got < g.sz
+       THEN [st EXCEPT !.gates[gi].wait = outcome, !.ch = ch]          \* nothing to see until the last piece is fed
+     ELSE IF g.kind = "pub"
+       THEN Settle(FinishPub([st EXCEPT !.ch = ch], gi, outcome, rd))
        ELSE LET s2 == IF CtlFails(outcome) THEN FailClose(s1, TRUE) ELSE s1 IN
             Settle(HandleRes(CtlDone(s2, g.kind, g.id, outcome), g.n, CtlResult(g.kind, g.id, outcome)))
 
@@ -456,7 +525,7 @@ DoEnd(st, k) ==
               ELSE E("cause", IF k = "raw" THEN "stop_proto" ELSE "stop_peer", 0, 0, 0, 0, 0, "") IN
   CASE k = "peer_close" -> Settle([Emit(st, << mark, E("peer_close", "", 0, 0, 0, 0, 0, "") >>) EXCEPT !.peerGone = TRUE])
     [] k = "raw" -> Settle([Emit(st, << mark, E("in", "RESERVED", 0, 0, 0, 0, 0, "") >>)
-                              EXCEPT !.rbuf = Append(@, [n |-> 0, kind |-> "raw", id |-> 0, q |-> 0, topic |-> "", alias |-> 0, plen |-> 0, sz |-> 0])])
+                              EXCEPT !.rbuf = Append(@, [n |-> 0, kind |-> "raw", id |-> 0, q |-> 0, topic |-> "", alias |-> 0, plen |-> 0, sent |-> 0, fin |-> FALSE, sz |-> 0])])
     [] k = "close" ->
          LET s1 == Emit(st, << mark, E("close", "close", 0, 0, 0, 0, 0, "") >>)
              s2 == IF Ver = 5 THEN Write(s1, Resp("DISCONNECT", 0, 0)) ELSE s1
